@@ -340,6 +340,11 @@ func (eng *Engine) inferRenaming(fn *ssa.Function, modes Modes, spec map[string]
 			if strings.HasPrefix(a, "call:") || a == "go:" || lines[anchorText(a)] {
 				continue
 			}
+			if !cut.Claim {
+				// a proof step whose statement is gone is skipped (its postconditions must be proved without it); putting
+				// it on a line that merely looks similar would turn a harmless edit into a failed assertion
+				continue
+			}
 			if best := fuzzyLine(anchorText(a), lines); best != "" {
 				fz[cut.Anchor] = best
 			}
